@@ -196,7 +196,7 @@ type mirArgs struct {
 	// monitors); the link stays up and the restarted node has to complete the copy
 	RestartMode string `json:"restart_mode"`
 	// the work is signed: the submitting node signs every request to the executing node with a token that is good for
-	// three seconds; the executing node verifies.  An outage longer than that must not stop the copy for good.
+	// four seconds; the executing node verifies.  An outage longer than that must not stop the copy for good.
 	Signed bool `json:"signed"`
 }
 
@@ -247,7 +247,7 @@ func mirApply(op string, raw json.RawMessage) interface{} {
 		sigSetup()
 		privFile := path.Join(dir, "sign.pem")
 		_ = os.WriteFile(privFile, pem.EncodeToMemory(&pem.Block{Type: "RSA PRIVATE KEY", Bytes: x509.MarshalPKCS1PrivateKey(sigKey)}), 0o600)
-		wA.SigningKey, wA.SigningExpiration = privFile, 3*time.Second
+		wA.SigningKey, wA.SigningExpiration = privFile, 4*time.Second
 		wB.VerifyingKey = sigPubFile
 	}
 	if err := wB.RegisterWorker("prod", mirNewUnit, a.Signed); err != nil {
@@ -485,7 +485,7 @@ func mirGen(v *verifRun) {
 	// signed work and an outage longer than a token's lifetime while output is being copied
 	for i := 0; i < 1+v.n/6; i++ {
 		a := mirArgs{Signed: true, Events: []mirEv{{K: "append", N: 2000}, {K: "record"}, {K: "sleep", N: 1500}, {K: "append", N: 150000}, {K: "record"},
-			{K: "sleep", N: 20}, {K: "cut"}, {K: "append", N: 3000}, {K: "record"}, {K: "sleep", N: 4500}, {K: "restore"}, {K: "finish"}}}
+			{K: "sleep", N: 20}, {K: "cut"}, {K: "append", N: 3000}, {K: "record"}, {K: "sleep", N: 5500}, {K: "restore"}, {K: "finish"}}}
 		v.do(mirApply, "mirror", a)
 	}
 	// short datagrams late: the reply line of a results request and the first data arrive together
